@@ -133,27 +133,40 @@ def _is_param(f, operand, param):
     return False
 
 
+BOUND_FNS = ("TermState::upper_bound", "TermState::block_upper_bound")
+
+
+def derives_from_bounds(P, f, sl, operand):
+    """Does the operand's value derive from a term upper-bound method — directly, through an accumulator, or through an
+    iterator pipeline whose closure calls one?"""
+    for x in sl.sources(operand):
+        if x[0] == "call" and callee_of(x[2]).endswith(BOUND_FNS):
+            return True
+        if x[0] == "agg" and x[3].get("ak") == "closure":
+            c = x[3]["closure"]
+            if any(q.endswith(BOUND_FNS) for q in P.reach(c)):
+                return True
+        if x[0] == "const" and "closure" in x[1]:
+            if any(q.endswith(BOUND_FNS) for q in P.reach(x[1]["closure"])):
+                return True
+    return False
+
+
 def pruning_sites(P, f):
-    """Comparisons `Ge/Gt/Le/Lt(Acc, T)` where Acc accumulates upper-bound results -> [(Site, threshold operand)]"""
+    """Comparisons between a value derived from TermState::{upper_bound, block_upper_bound} and a threshold
+    -> [(Site, threshold operand)]"""
     out = []
-    ub = {d["t"]["dst"]["l"] for l, dfs in f.defs().items() for d in dfs
-          if d["k"] == "call" and callee_of(d["t"]).endswith(("TermState::upper_bound", "TermState::block_upper_bound"))}
-    if not ub:
+    has_bounds = any(q.endswith(BOUND_FNS) for q in P.reach(f.path))
+    if not has_bounds:
         return out
-    sl = Slice(f)
-    accs = set()
-    for b, i, s in f.stmts():
-        if s["k"] == "assign" and s["rv"]["k"] == "binop" and s["rv"]["op"].startswith("Add") and not s["dst"]["p"]:
-            if op_local(s["rv"]["a"]) == s["dst"]["l"]:
-                srcs = sl.sources(s["rv"]["b"])
-                if any(x[0] == "call" and callee_of(x[2]).endswith(("TermState::upper_bound", "TermState::block_upper_bound")) for x in srcs):
-                    accs.add(s["dst"]["l"])
+    sl = Slice(f, through_all_calls=True)
     for b, i, s in f.stmts():
         if s["k"] == "assign" and s["rv"]["k"] == "binop" and s["rv"]["op"] in ("Ge", "Gt", "Le", "Lt"):
             a, bb = s["rv"]["a"], s["rv"]["b"]
-            if _root(f, a) in accs:
+            da, db = derives_from_bounds(P, f, sl, a), derives_from_bounds(P, f, sl, bb)
+            if da and not db:
                 out.append((Site(f, b, i), bb))
-            elif _root(f, bb) in accs:
+            elif db and not da:
                 out.append((Site(f, b, i), a))
     return out
 
